@@ -149,6 +149,34 @@ fn case_json(m: &Mapping, full_bmp: bool) -> Value {
     })
 }
 
+/// Format-4 header fields recomputed from the specification:
+/// searchRange = 2 * 2^floor(log2 segCount), entrySelector = floor(log2 segCount),
+/// rangeShift = 2 * segCount - searchRange, length = 16 + 8 segCount + 2 (glyph ids used by range-offset segments).
+fn format4_header_mismatch(t: &rc::Cmap4) -> Option<String> {
+    let seg_x2 = t.seg_count_x2() as u32;
+    let seg = seg_x2 / 2;
+    if seg == 0 || seg_x2 % 2 != 0 || seg as usize != t.end_code().len() || seg as usize != t.start_code().len() {
+        return Some(format!("segCountX2 = {seg_x2} for {} end codes", t.end_code().len()));
+    }
+    let log2 = 31 - seg.leading_zeros();
+    let want = (2 * (1u32 << log2), log2, 2 * seg - 2 * (1u32 << log2));
+    let got = (t.search_range() as u32, t.entry_selector() as u32, t.range_shift() as u32);
+    if got != want {
+        return Some(format!("segCount {seg}: (searchRange, entrySelector, rangeShift) = {got:?}, specification {want:?}"));
+    }
+    // the reader's glyph_id_array runs to the end of the cmap table; count the ids the range-offset
+    // segments actually use (the builder never shares them between segments)
+    let ids: usize = (0..seg as usize)
+        .filter(|i| t.id_range_offsets()[*i].get() != 0)
+        .map(|i| (t.end_code()[i].get() as usize).saturating_sub(t.start_code()[i].get() as usize) + 1)
+        .sum();
+    let len = 16 + 8 * seg as usize + 2 * ids;
+    if t.length() as usize != len {
+        return Some(format!("length field {} for a {len}-byte sub-table", t.length()));
+    }
+    None
+}
+
 /// table-level rule: mapped -> Some(gid); unmapped -> None or the missing-glyph id
 fn table_level_ok(got: Option<GlyphId>, exp: Option<u16>) -> bool {
     match exp {
@@ -353,6 +381,13 @@ fn check_compiled(run: &Run, m: &Mapping, full_bmp: bool, font_bytes: &[u8], l: 
                     h.u64(t.id_range_offsets()[i].get() as u64);
                 }
                 h.u64(t.glyph_id_array().len() as u64);
+                if let Some(what) = format4_header_mismatch(&t) {
+                    run.violation(
+                        "Cmap4 header: searchRange / entrySelector / rangeShift / length differ from the specification's formulas",
+                        &format!("mapping {:x?}: {what}", m),
+                        case_json(m, full_bmp),
+                    );
+                }
                 c4.push(t);
             }
             Ok(rc::CmapSubtable::Format12(t)) => {
@@ -1242,6 +1277,54 @@ fn combined_family(run: &Run) {
     run.sample(combined_json(&specs[5], &plain[0], 2));
 }
 
+/// F7: format-4 sub-tables built directly from the generated write type with k single-character delta
+/// segments + the sentinel, k = 0..=8 (segCount 1..=9). `from_mappings` never emits segCount 1 (it
+/// emits no format 4 at all without BMP characters), the write type can.
+fn direct_format4_family(run: &Run) {
+    let mut l = Local::new();
+    for k in 0..=8u16 {
+        l.evals += 1;
+        let m: Mapping = (0..k).map(|i| (0x100 + 3 * i as u32, 7 + i)).collect();
+        let case = || json!({"kind":"direct4","segments":k});
+        let r = guard(|| {
+            let mut end: Vec<u16> = m.iter().map(|p| p.0 as u16).collect();
+            let mut delta: Vec<i16> = m.iter().map(|p| (p.1 as i32 - p.0 as i32) as i16).collect();
+            end.push(0xFFFF);
+            delta.push(1);
+            let sub = wc::CmapSubtable::format_4(0, end.clone(), end.clone(), delta, vec![0; end.len()], vec![]);
+            let cmap = wc::Cmap::new(vec![
+                wc::EncodingRecord::new(wc::PlatformId::Unicode, 3, sub.clone()),
+                wc::EncodingRecord::new(wc::PlatformId::Windows, 1, sub),
+            ]);
+            dump_table(&cmap)
+        });
+        let bytes = match r {
+            Ok(Ok(b)) => b,
+            Ok(Err(e)) => {
+                run.violation("hand-built Cmap4 fails to compile", &format!("{e}"), case());
+                continue;
+            }
+            Err(p) => {
+                run.violation(&format!("hand-built Cmap4 compile panic: {} in {}", p.kind(), p.site()), &p.message, case());
+                continue;
+            }
+        };
+        l.compiled += 1;
+        let font_bytes = FontBuilder::new()
+            .add_raw(Tag::new(b"cmap"), bytes)
+            .add_raw(Tag::new(b"maxp"), maxp_bytes())
+            .build();
+        CASE_OVERRIDE.with(|c| *c.borrow_mut() = Some(case()));
+        let r = guard(|| check_compiled(run, &m, false, &font_bytes, &mut l));
+        CASE_OVERRIDE.with(|c| *c.borrow_mut() = None);
+        if let Err(p) = r {
+            run.violation(&format!("cmap reader panic: {} in {}", p.kind(), p.site()), &p.message, case());
+        }
+    }
+    run.bound("F7.direct_format4_segment_counts", json!("1..=9 (sentinel only .. 8 characters + sentinel)"));
+    l.merge(run, "F7");
+}
+
 fn uvs_family(run: &Run) {
     let bodies = uvs_bodies(false);
     run.bound("F4.selectors", json!(UVS_SELECTORS));
@@ -1659,6 +1742,7 @@ fn body(run: &Run, replay: Option<&Value>) {
             }
             Some("uvs") => check_uvs(run, &uvs_from_json(case), &mut l),
             Some("edge") => check_edge(run, case, &mut l),
+            Some("direct4") => println!("direct4 cases are re-run by the tier (F7, 9 cases)"),
             Some("combined") => {
                 let base: Vec<(u32, u16)> = case["mapping"]
                     .as_array()
@@ -1700,5 +1784,6 @@ fn body(run: &Run, replay: Option<&Value>) {
     block_family(run);
     uvs_family(run);
     combined_family(run);
+    direct_format4_family(run);
     edge_family(run);
 }
